@@ -3,13 +3,13 @@ CONSTANTS
   Slots = {1, 2}
   Evil = 2
   ClaimSet = {1}
-  NoteSet = {0}
+  NoteSet = {0, 1}
   Services = {"a"}
-  MaxNet = 2
+  MaxNet = 3
   MaxBlobs = 2
   MaxClock = 1
-  Weaken = "none"
+  Weaken = "aud"
 VIEW MCView
 INVARIANTS Invs
-PROPERTIES AcceptNeedsKey GenStable DispatchIsDisjunction NotExpired ClockMonotone
+PROPERTIES AcceptNeedsKey GenStable
 CHECK_DEADLOCK FALSE
